@@ -413,6 +413,58 @@ impl World {
 		}
 	}
 
+	/// Raw content of the wallet's LMDB (every key/value), read from a copy of the
+	/// database directory so the live environment is never opened twice.
+	pub fn raw_db(&self, idx: usize) -> Vec<(Vec<u8>, Vec<u8>)> {
+		let src = format!("{}/wallet_data/db", self.wallets[idx].top_dir);
+		let dst = format!("{}/rawcopy-{}", self.dir, idx);
+		let _ = std::fs::remove_dir_all(&dst);
+		let _ = std::fs::create_dir_all(format!("{}/lmdb", dst));
+		for f in ["data.mdb", "lock.mdb"].iter() {
+			let _ = std::fs::copy(format!("{}/lmdb/{}", src, f), format!("{}/lmdb/{}", dst, f));
+		}
+		let mut res = vec![];
+		if let Ok(store) = grin_store::Store::new(&dst, None, Some("db"), None) {
+			if let Ok(it) = store.iter(&[], |k, v| Ok((k.to_vec(), v.to_vec()))) {
+				for kv in it {
+					res.push(kv);
+				}
+			}
+		}
+		let _ = std::fs::remove_dir_all(&dst);
+		res
+	}
+
+	/// digest of everything durable in the wallet directory: LMDB content,
+	/// stored transactions, seed files
+	pub fn dir_digest(&self, idx: usize) -> u64 {
+		let mut h = 0u64;
+		for (k, v) in self.raw_db(idx) {
+			h = crate::rng::mix(&[h, crate::rng::hash_bytes(&k), crate::rng::hash_bytes(&v)]);
+		}
+		let base = format!("{}/wallet_data", self.wallets[idx].top_dir);
+		let mut files: Vec<std::path::PathBuf> = vec![];
+		if let Ok(rd) = std::fs::read_dir(format!("{}/saved_txs", base)) {
+			for e in rd.flatten() {
+				files.push(e.path());
+			}
+		}
+		if let Ok(rd) = std::fs::read_dir(&base) {
+			for e in rd.flatten() {
+				if e.path().is_file() {
+					files.push(e.path());
+				}
+			}
+		}
+		files.sort();
+		for f in files {
+			let name = f.file_name().unwrap().to_string_lossy().to_string();
+			let content = std::fs::read(&f).unwrap_or_default();
+			h = crate::rng::mix(&[h, crate::rng::hash_str(&name), crate::rng::hash_bytes(&content)]);
+		}
+		h
+	}
+
 	pub fn close_all(&mut self) {
 		for i in 0..self.wallets.len() {
 			self.drop_handles(i);
